@@ -16,6 +16,7 @@ Theorems (all over Model/Routing.lean applied to the tables regenerated from /re
 -/
 import KafkaVerif.Model.Routing
 import KafkaVerif.Lemmas.Routing
+import KafkaVerif.Model.Discover
 
 namespace KV.Props.C12
 open KV.Routing KV.Gen.Routing
@@ -241,5 +242,115 @@ example :
     let m2 : MResponse := ⟨0, [⟨1, "h1", 9093, ""⟩, ⟨2, "h2", 9092, ""⟩], "", 1, []⟩
     (update (update {} (some m1) false) (some m2) false).conns = [(2, ("h2", 9092)), (1, ("h1", 9093))] := by
   decide
+
+end KV.Props.C12
+
+/-! ## the refresh loop (transport.go discover) -/
+
+namespace KV.Props.C12
+open KV.Routing KV.Gen.Routing KV.Discover
+open KV.Lemmas.Routing (ConnsInv)
+
+/-- the guards regenerated from the source leave the loop only through the pool's own context -/
+theorem discover_exits_safe : SafeGuards discoverExits := by
+  unfold SafeGuards; decide
+
+theorem safe_flags (guards : List ExitGuard) (h : SafeGuards guards) :
+    ExitGuard.errIsOtherCtx ∉ guards ∧ ExitGuard.other ∉ guards ∧ ExitGuard.otherChan ∉ guards := by
+  refine ⟨?_, ?_, ?_⟩ <;>
+  · intro hc
+    rcases h _ hc with h | h <;> cases h
+
+/-- one step without `close` keeps the loop alive (and the pool open) -/
+theorem step_survives (guards : List ExitGuard) (h : SafeGuards guards) (s s' : DState) (e : DEvent)
+    (hs : step guards s e = some s') (halive : s.alive = true) (hne : e.isClose = false) : s'.alive = true := by
+  obtain ⟨h1, h2, h3⟩ := safe_flags guards h
+  cases e with
+  | close => simp [DEvent.isClose] at hne
+  | tick | connFail | reqError | timeout =>
+    simp only [step] at hs
+    split at hs
+    · cases hs; simp [exitsOnWake, exitsOnError, h1, h2, h3]
+    · cases hs
+  | answer m =>
+    simp only [step] at hs
+    split at hs
+    · cases hs; exact halive
+    · cases hs
+
+/-- **refresh_loop_survives_faults**: for every sequence of refresh outcomes — answers, failed dials, i/o
+errors, dropped connections, requests that are never answered and run into the per-request deadline, in any
+number and order — the refresh goroutine is still in its loop, unless the pool itself was closed. -/
+theorem refresh_loop_survives_faults (es : List DEvent) (s s' : DState)
+    (hrun : run discoverExits s es = some s') (halive : s.alive = true)
+    (hnoclose : ∀ e ∈ es, e.isClose = false) : s'.alive = true := by
+  induction es generalizing s with
+  | nil => simp only [run] at hrun; cases hrun; exact halive
+  | cons e es ih =>
+    simp only [run] at hrun
+    cases hstep : step discoverExits s e with
+    | none => simp [hstep] at hrun
+    | some s1 =>
+      simp only [hstep, Option.bind] at hrun
+      exact ih s1 hrun (step_survives _ discover_exits_safe s s1 e hstep halive (hnoclose e List.mem_cons_self))
+        (fun x hx => hnoclose x (List.mem_cons_of_mem _ hx))
+
+/-- every step preserves "each connection group dials the address the cached metadata gives" -/
+theorem step_connsInv (guards : List ExitGuard) (s s' : DState) (e : DEvent)
+    (hs : step guards s e = some s') (h : ConnsInv s.pool) : ConnsInv s'.pool := by
+  cases e <;> simp only [step] at hs <;> split at hs <;> (try cases hs) <;>
+    first | exact h | exact Lemmas.Routing.update_connsInv _ _ _ h
+
+theorem run_connsInv (guards : List ExitGuard) (es : List DEvent) (s s' : DState)
+    (hrun : run guards s es = some s') (h : ConnsInv s.pool) : ConnsInv s'.pool := by
+  induction es generalizing s with
+  | nil => simp only [run] at hrun; cases hrun; exact h
+  | cons e es ih =>
+    simp only [run] at hrun
+    cases hstep : step guards s e with
+    | none => simp [hstep] at hrun
+    | some s1 =>
+      simp only [hstep, Option.bind] at hrun
+      exact ih s1 hrun (step_connsInv guards s s1 e hstep h)
+
+/-- **refresh_after_faults** (`update_follows` composed over the loop): after any fault history without `close`
+that leaves the loop waiting, the next timer tick / forced wake followed by an answer `m` is accepted, and then
+the cached layout is `m`'s and every connection group dials the address `m` gives — so a leader move reported by
+`m` is followed however many refreshes failed before. -/
+theorem refresh_after_faults (es : List DEvent) (s s' : DState) (m : MResponse)
+    (hrun : run discoverExits s es = some s') (halive : s.alive = true) (hopen : s'.closed = false)
+    (hphase : s'.phase = .waiting) (hnoclose : ∀ e ∈ es, e.isClose = false) (hinv : ConnsInv s.pool) :
+    ∃ s'', run discoverExits s' [.tick, .answer m] = some s'' ∧ s''.alive = true ∧
+      s''.pool.layout = makeLayout (normalize m) ∧ s''.pool.metadata = some (normalize m) ∧ ConnsInv s''.pool := by
+  have ha := refresh_loop_survives_faults es s s' hrun halive hnoclose
+  have hi := run_connsInv discoverExits es s s' hrun hinv
+  obtain ⟨_, h2, h3⟩ := safe_flags discoverExits discover_exits_safe
+  refine ⟨{ s' with phase := .waiting, alive := true, pool := update s'.pool (some m) false }, ?_, rfl, ?_, ?_, ?_⟩
+  · simp [run, step, ha, hopen, hphase, exitsOnWake, h2, h3]
+  · exact (update_follows s'.pool m hi).2.1
+  · exact (update_follows s'.pool m hi).1
+  · exact (update_follows s'.pool m hi).2.2.2
+
+/-- a refresh that fails (dial error, i/o error, timeout) never replaces a known cluster view -/
+theorem faults_keep_known_view (s s' : DState) (e : DEvent) (hs : step discoverExits s e = some s')
+    (hknown : s.pool.metadata.isSome = true) (hfault : ∀ m, e ≠ .answer m) :
+    s'.pool = s.pool := by
+  cases e with
+  | answer m => exact absurd rfl (hfault m)
+  | tick | close =>
+    simp only [step] at hs
+    split at hs <;> cases hs <;> rfl
+  | connFail | reqError | timeout =>
+    simp only [step] at hs
+    split at hs
+    · cases hs; exact update_error_keeps_known s.pool none hknown
+    · cases hs
+
+/-- a stalled request followed by a late leader move: the loop is alive and the move is picked up -/
+example : (run discoverExits {} [.tick, .answer ⟨0, [⟨1, "b1", 9092, ""⟩], "", 1, []⟩, .tick, .timeout, .connFail,
+    .tick, .reqError, .tick]).map (fun s => (s.alive, s.phase)) = some (true, .requesting) := by decide
+
+/-- with a guard on the per-request context (the shape of seeded change C12-m3) one timeout ends the loop -/
+example : (run [.errIsOtherCtx, .poolDone] {} [.tick, .timeout]).map (·.alive) = some false := by decide
 
 end KV.Props.C12
